@@ -19,8 +19,23 @@ func (c *replayFixedCurve) Evaluate() (int, error) { return c.v, nil }
 func (c *replayFixedCurve) CurrentValue() int      { return c.v }
 
 func TestReplayStallNeverDetected(t *testing.T) {
-	configuration.CurrentConfig.RpmRollingWindowSize = 10
-	dir := t.TempDir()
+	// bounded stand-in for the "for every history" part: windows 1..50 x prior averages; for each the stall
+	// must be noticed within 12*window+3 polls, then the request must go up by one step per poll until the
+	// maximum is reached and the stall is reported as an error.
+	for window := 1; window <= 50; window++ {
+		for _, prior := range []float64{0, 0.5, 1, 7, 1000, 100000} {
+			replayStall(t, window, prior)
+		}
+	}
+}
+
+func replayStall(t *testing.T, window int, prior float64) {
+	configuration.CurrentConfig.RpmRollingWindowSize = window
+	dir, err := os.MkdirTemp("", "replay-stall")
+	if err != nil {
+		t.Fatal(err)
+	}
+	defer os.RemoveAll(dir)
 	w := func(name, v string) {
 		if err := os.WriteFile(filepath.Join(dir, name), []byte(v), 0644); err != nil {
 			t.Fatal(err)
@@ -29,7 +44,7 @@ func TestReplayStallNeverDetected(t *testing.T) {
 	w("pwm1", "50")
 	w("pwm1_enable", "1")
 	w("fan1_input", "0") // the fan has stopped
-	minPwm, maxPwm := 50, 200
+	minPwm, maxPwm := 50, 60
 	cfg := configuration.FanConfig{ID: "f", NeverStop: true, MinPwm: &minPwm, MaxPwm: &maxPwm,
 		HwMon: &configuration.HwMonFanConfig{PwmPath: filepath.Join(dir, "pwm1"), PwmEnablePath: filepath.Join(dir, "pwm1_enable"), RpmInputPath: filepath.Join(dir, "fan1_input")}}
 	fan, _ := fans.NewFan(cfg)
@@ -39,23 +54,42 @@ func TestReplayStallNeverDetected(t *testing.T) {
 	}
 	f := &DefaultFanController{fan: fan, curve: &replayFixedCurve{0}, controlLoop: control_loop.NewDirectControlLoop(nil), pwmMap: pm}
 	f.updateDistinctPwmValues()
-	fan.SetRpmAvg(1000) // it was spinning before
-	first, err := f.calculateTargetPwm()
-	if err != nil {
-		t.Fatal(err)
+	fan.SetRpmAvg(prior)
+	last := -1
+	if prior >= 1 {
+		first, err := f.calculateTargetPwm()
+		if err != nil {
+			t.Fatal(err)
+		}
+		_ = f.setPwm(first)
+		last = first
+	} else {
+		_ = f.setPwm(minPwm)
+		last = minPwm
 	}
-	_ = f.setPwm(first)
-	const polls = 2000 // 200 x the window size
-	for i := 0; i < polls; i++ {
+	budget := 12*window + 3
+	sinceRaise := 0
+	for i := 0; i < 100000; i++ {
 		f.measureRpm(fan)
+		sinceRaise++
 		target, err := f.calculateTargetPwm()
 		if err != nil {
-			return
+			if err != ErrFanStalledAtMaxPwm || last < maxPwm {
+				t.Fatalf("VIOLATED C10: window %d prior %g: unexpected error %v at request %d", window, prior, err, last)
+			}
+			return // stall reported at the maximum
 		}
-		if target > first {
-			return // noticed: request raised
+		if target > last {
+			if target != last+1 {
+				t.Fatalf("VIOLATED C10: window %d prior %g: request jumped from %d to %d", window, prior, last, target)
+			}
+			last = target
+			sinceRaise = 0
+			budget = 2 // after the first raise: one step per poll (the average restarts at 1)
+		} else if sinceRaise > budget {
+			t.Fatalf("VIOLATED C10: window %d prior %g: fan reports 0 RPM for %d polls, request stays at %d; rpm average is %g", window, prior, sinceRaise, last, fan.GetRpmAvg())
 		}
 		_ = f.setPwm(target)
 	}
-	t.Fatalf("VIOLATED C10: fan reports 0 RPM for %d polls (window 10), request never raised above %d; rpm average is %g", polls, first, fan.GetRpmAvg())
+	t.Fatalf("VIOLATED C10: window %d prior %g: stall never reported", window, prior)
 }
